@@ -12,6 +12,7 @@ import (
 	"os"
 
 	"github.com/WICG/webpackage/go/internal/cbor"
+	"github.com/WICG/webpackage/go/internal/verifhook"
 )
 
 type SignatureAttributesMap map[string][]byte
@@ -86,6 +87,7 @@ func (ib *IntegrityBlock) CborBytes() ([]byte, error) {
 		return nil, err
 	}
 
+	verifhook.Point("integrityblock.CborBytes.stack")
 	err = enc.EncodeArrayHeader(len(ib.SignatureStack))
 	for _, integritySignature := range ib.SignatureStack {
 		if err := integritySignature.cborBytes(enc); err != nil {
